@@ -112,4 +112,5 @@ def check(world, tier):
     # stability needs the decoder to accept what the serializer emits for the packets the decoder itself returns
     from . import C11
     import_clause(world, tier, b, C11, "C11.c", ("minimal-",), "re-encodings of accepted packets are accepted")
+    import_clause(world, tier, b, C11, "C11.c", ("string-chain", "string-start"), "every string ends at a NUL inside the datagram")
     return rep
